@@ -902,7 +902,7 @@ func (c *runA) key(obs []obsA) string {
 	must(err)
 	pl := toEntries(pers)
 	sort.Slice(pl, func(i, j int) bool { return bytes.Compare(pl[i].addr[:], pl[j].addr[:]) < 0 })
-	return fmt.Sprintf("%s|rs=%d|pers%s|%s", c.sc.Name, c.restarts, fmtList(pl), enc(c.stable))
+	return fmt.Sprintf("%s|rs=%d|pers%s|%s", c.full[0], c.restarts, fmtList(pl), enc(c.stable))
 }
 
 // ---------------------------------------------------------------------------------------------
@@ -1012,7 +1012,8 @@ func (c *runA) enabled() []string {
 var verbose bool
 
 func runLayerA(full []string) (o core.Outcome) {
-	sc := scenariosA[full[0]]
+	base, _ := splitScenario(full[0])
+	sc := scenariosA[base]
 	if sc == nil {
 		panic(errInvalidHistory)
 	}
